@@ -257,3 +257,9 @@ Definition impl_both (alpha c : Qc) (D : nat -> dpoint) (F : forest) (rootR : li
 Definition c_default : Qc := Q2Qc 1000.
 (* precondition on the data points of a forest: 0 <= p < 1, cluster size >= 1 *)
 Definition dp_ok (d : dpoint) : Prop := 0 <= dp_p d /\ dp_p d < 1 /\ (1 <= dp_size d)%nat.
+
+(* ---- a concrete instance used by the non-vacuity examples of Properties/C03.v ---- *)
+Definition exD (i : nat) : dpoint := mkDP (Q2Qc (1#10)) (1 + i mod 2) [[Q2Qc (1#2); Q2Qc (1#4); Q2Qc (3#4)]].
+Definition exF : forest := mkF [Node [0] [Node [1;2] []; Node [3] []]; Node [4] []]%nat [5%nat].
+Definition exF' : forest := mkF [Node [4] []; Node [0] [Node [3] []; Node [2;1] []]]%nat [5%nat].
+Definition exR : list (list Qc) := [[Q2Qc (1#20); Q2Qc (1#30); Q2Qc (1#40)]].
